@@ -96,6 +96,8 @@ pub fn variant_tag() -> &'static str {
         " [stream loop]"
     } else if v.builder_order != 0 {
         match v.builder_order {
+            4 => " [builder: timeout(1 tick) and the opposite fail_on_timeout, mailbox, then the real ones]",
+            5 => " [builder: timeout(1 tick), overwritten at once by the real one, mailbox]",
             1 => " [builder: fail_on_timeout, timeout, mailbox]",
             2 => " [builder: mailbox, timeout, fail_on_timeout]",
             _ => " [builder: mailbox, fail_on_timeout, timeout]",
